@@ -170,3 +170,28 @@ Example C13_no_size_hypothesis_example :
   array_except_w [49] (enc c13_b) [] = Ok (enc (VArr [])) /\
   array_except_w [34; 122; 34] (enc c13_b) [] = Ok (enc (VArr [VStr [122]])).
 Proof. vm_compute. repeat split; reflexivity. Qed.
+
+(* ---- laws that PIN the functions (Extra13.v; the algebraic laws above would also hold for `distinct := id`).
+   Identity of elements is item_eqb (identical entry word and payload; on well-formed values: equal normal forms,
+   C13_byte_identity).  cnt x l = number of elements of l identical to x; without x l = l minus the elements identical
+   to x; first_flags [] l = for each position, "no identical element stands before it"; select_flags keeps the flagged
+   positions.  Through C13_set_functions_bytes_* these are statements about the byte walkers' output on encodings. *)
+From JB Require Import SetWalkProofs Extra13.
+Theorem C13_distinct_keeps_exactly_the_first_occurrences :
+  (forall v,
+     NoDup (map enc_item (items_of (array_distinct_t v))) /\
+     subseq (items_of (array_distinct_t v)) (items_of v) /\
+     items_of (array_distinct_t v) = select_flags (first_flags [] (items_of v)) (items_of v) /\
+     (forall x, cnt x (items_of (array_distinct_t v)) = if existsb (item_eqb x) (items_of v) then 1 else 0)%nat) /\
+  (forall x l, items_of (array_distinct_t (VArr (x :: l))) = x :: items_of (array_distinct_t (VArr (without x l)))) /\
+  items_of (array_distinct_t (VArr [])) = [].
+Proof. split; [exact array_distinct_pinned|exact array_distinct_recursive]. Qed.
+Print Assumptions C13_distinct_keeps_exactly_the_first_occurrences.
+
+(* exact multiset counting, in the order of the first list *)
+Theorem C13_intersection_and_except_count : forall a b x,
+  cnt x (items_of (array_intersection_t a b)) = Nat.min (cnt x (items_of a)) (cnt x (items_of b)) /\
+  cnt x (items_of (array_except_t a b)) = (cnt x (items_of a) - cnt x (items_of b))%nat /\
+  subseq (items_of (array_intersection_t a b)) (items_of a) /\ subseq (items_of (array_except_t a b)) (items_of a).
+Proof. exact intersection_except_count. Qed.
+Print Assumptions C13_intersection_and_except_count.
